@@ -1,6 +1,6 @@
 # reg, TB_COMMON and CODEC_TB are injected by lib/props.py
 reg(id="C04",
-    gen=["msgs", "accessors"],
+    gen=["msgs", "accessors", "globals"],
     harness_cmd="c01",
     model_targets=["Codec/Corr.vo"],
     proof_targets=["Props/C04.vo"],
